@@ -127,17 +127,17 @@ next:
 	return ""
 }
 
-// WaitParked waits until every goroutine running one of the functions fns is parked in
-// wantState (a consumer loop blocked on its blocking receive has processed everything it
-// took out of its queue). Returns false on timeout.
-func WaitParked(timeout time.Duration, wantState string, fns ...string) bool {
+// WaitParked waits until every goroutine running one of the functions fns is parked on a
+// channel receive / select (a consumer loop blocked on its blocking receive has processed
+// everything it took out of its queue). Returns false on timeout.
+func WaitParked(timeout time.Duration, fns ...string) bool {
 	deadline := time.Now().Add(timeout)
 	for spin := 0; ; spin++ {
 		d := AllStacks()
 		ok := true
 		for _, fn := range fns {
 			for _, st := range GoroutineStates(d, fn) {
-				if st != wantState {
+				if st != "chan receive" && st != "select" {
 					ok = false
 				}
 			}
